@@ -567,7 +567,7 @@ impl UndoOperation for UndoLayerChange {
 
     fn undo(&mut self, edit_state: &mut EditState) -> EngineResult<()> {
         if let Some(layer) = edit_state.buffer.layers.get_mut(self.layer) {
-            if layer.get_size() == self.old_chars.get_size() {
+            if self.pos == Position::default() && layer.get_size() == self.old_chars.get_size() {
                 restore_cells(layer, &self.old_chars);
             } else {
                 layer.stamp(self.pos, &self.old_chars);
@@ -580,7 +580,7 @@ impl UndoOperation for UndoLayerChange {
 
     fn redo(&mut self, edit_state: &mut EditState) -> EngineResult<()> {
         if let Some(layer) = edit_state.buffer.layers.get_mut(self.layer) {
-            if layer.get_size() == self.new_chars.get_size() {
+            if self.pos == Position::default() && layer.get_size() == self.new_chars.get_size() {
                 restore_cells(layer, &self.new_chars);
             } else {
                 layer.stamp(self.pos, &self.new_chars);
